@@ -52,6 +52,15 @@ SUMMARY = {
  "C08-c": ("parameters(): non-axis words formatted with str() unless int/float", "numpy float32/int64 scalars in E/F/P... words (tiny, non-finite or with more decimals than configured)"),
  "C09-c": ("line breaks only flattened when the text has more than one line", "text ending in a single trailing line break under a delimited comment style"),
  "C10-c": ("arc z interpolated from the centre's z instead of the start's", "centre argument with a non-zero third component"),
+ "C11-c": ("absolute_mode()/relative_mode() lose their try/finally", "body of a mode context raises, caller catches and carries on"),
+ "C12-c": ("_filter_segments tolerance floored at 1e-3", "resolution below ~0.005 units (inch work)"),
+ "C13-c": ("named_transform() implemented with save_state()/restore_state() instead of a private snapshot", "body leaves the stack unbalanced (save then raise, or more pops than pushes)"),
+ "C14-c": ("FileWriter.flush() only flushes files it opened itself", "caller-owned buffered file object + flush() + reading through another handle"),
+ "C16-c": ("ack event cleared after the statement is handed to printcore", "reply processed between send() and clear(): write() hangs"),
+ "C17-c": ("at end of stream only the last buffered chunk is delivered as the tail", "unterminated tail arriving in two or more reads"),
+ "C18-c": ("error classification by substring instead of prefix", "Grbl status report in state Alarm"),
+ "C19-c": ("raster _interpolate_line evaluates the spline directly (no outside-the-image zero)", "sample_path line with a pixel outside an image with non-zero border"),
+ "C20-c": ("hooks get to_absolute(point.resolve())", "hook + absolute mode + move omitting an axis whose coordinate is non-zero"),
 }
 rows = []
 for mp in sorted(glob.glob("/verif/seeded/*/meta.json")):
